@@ -24,8 +24,8 @@ class Expect:
         self.kind = None
         self.wake = None  # node id whose wake-up this event is
 
-    def add(self, line, kind, ack_free=False, multiset=False):
-        item = {"line": line, "kind": kind, "ack_free": ack_free}
+    def add(self, line, kind, ack_free=False, multiset=False, time=None):
+        item = {"line": line, "kind": kind, "ack_free": ack_free, "time": time}
         (self.out_set if multiset else self.out).append(item)
 
 
@@ -52,13 +52,13 @@ class GatewayModel:
         node = self.nodes.get(nid)
         return bool(node and node["sleep_children"])
 
-    def _route(self, exp, nid, line, kind, ack_free=False, stream=False):
+    def _route(self, exp, nid, line, kind, ack_free=False, stream=False, time=None):
         """A reply for node nid: sent now, or held if the node sleeps (streams pass)."""
         if not stream and self.sleeping(nid):
-            self.nodes[nid]["held"].append({"line": line, "ack_free": ack_free, "kind": kind})
+            self.nodes[nid]["held"].append({"line": line, "ack_free": ack_free, "kind": kind, "time": time})
             exp.notes.append(("held", nid, line))
             return
-        exp.add(line, kind, ack_free=ack_free)
+        exp.add(line, kind, ack_free=ack_free, time=time)
 
     def _need(self, exp, nid, cid=None):
         """is_sensor(): known node (and child)?  >= 2.0: one presentation request otherwise."""
@@ -147,7 +147,8 @@ class GatewayModel:
         elif sub == 1:
             exp.kind = "time"
             exp.time_reply = True
-            self._route(exp, node, f"{node};{child};3;0;1;{local_now}", "time-reply")
+            # local_now is a (lo, hi) window of acceptable local-time seconds
+            self._route(exp, node, f"{node};{child};3;0;1;", "time-reply", time=tuple(local_now or (0, 0)))
         elif sub == 3:
             exp.kind = "id-request"
             exp.cb = "may"
@@ -171,7 +172,7 @@ class GatewayModel:
             exp.kind = "gateway-ready"
             exp.cb = "may"
             if self.v2:
-                exp.add("255;255;3;0;20;", "discover")
+                self._route(exp, 255, "255;255;3;0;20;", "discover")
         elif sub == 21 and self.v2:
             exp.kind = "discover-response"
             self._need(exp, node)
@@ -199,7 +200,7 @@ class GatewayModel:
                 rec["sleep_children"].append(cid)
         held, rec["held"] = rec["held"], []
         for item in held:
-            exp.add(item["line"], "held:" + item["kind"], ack_free=item["ack_free"])
+            exp.add(item["line"], "held:" + item["kind"], ack_free=item["ack_free"], time=item.get("time"))
         for cid, child in rec["children"].items():
             want = rec["desired"].get(cid)
             if not want:
